@@ -4,7 +4,6 @@ import (
 	"fmt"
 	"io/fs"
 	"os"
-	"path"
 
 	"github.com/ipfs/go-unixfsnode/data"
 	dagpb "github.com/ipld/go-codec-dagpb"
@@ -37,7 +36,9 @@ func BuildUnixFSRecursive(root string, ls *ipld.LinkSystem) (ipld.Link, uint64, 
 		}
 		lnks := make([]dagpb.PBLink, 0, len(entries))
 		for _, e := range entries {
-			lnk, sz, err := BuildUnixFSRecursive(path.Join(root, e.Name()), ls)
+			// root is used as given: joining would clean it lexically, and "link/../dir"
+			// cleaned names another place than the one the listing above came from
+			lnk, sz, err := BuildUnixFSRecursive(root+string(os.PathSeparator)+e.Name(), ls)
 			if err != nil {
 				return nil, 0, err
 			}
